@@ -76,8 +76,10 @@ def mem_campaigns(mode="oracle", quick_cases=1500, thorough_cases=60000, maxops_
 
 def mem_algo_campaigns():
     return {
-        "quick": [{"name": "mem-algo-random", "args": ["mode=algo", "cases=2500", "maxops=60"]}],
-        "thorough": [{"name": "mem-algo-random", "args": ["mode=algo", "cases=60000", "maxops=120"]}],
+        "quick": [{"name": "mem-algo-random", "args": ["mode=algo", "cases=2500", "maxops=60"]},
+                  {"name": "mem-algo-lru", "args": ["mode=algo", "cases=2000", "maxops=60", "algos=lru"]}],
+        "thorough": [{"name": "mem-algo-random", "args": ["mode=algo", "cases=60000", "maxops=120"]},
+                     {"name": "mem-algo-lru", "args": ["mode=algo", "cases=40000", "maxops=120", "algos=lru"]}],
     }
 
 
@@ -477,10 +479,14 @@ PROPS.update({
         "campaigns": {
             "quick": [{"name": "hyb-random", "args": ["cases=250", "maxops=25"]},
                       {"name": "hyb-big", "args": ["cases=80", "maxops=25", "big=1"]},
-                      {"name": "blk-overload", "domain": "blk", "args": ["cases=80", "maxops=60", "overload=1"]}],
+                      {"name": "blk-overload", "domain": "blk", "args": ["cases=80", "maxops=60", "overload=1"]},
+                      {"name": "blk-reinsertion", "domain": "blk", "args": ["cases=40", "maxops=120", "overload=1", "reins=1"]},
+                      {"name": "blk-blobreuse", "domain": "blk", "args": ["cases=2", "blobreuse=1"]}],
             "thorough": [{"name": "hyb-random", "args": ["cases=6000", "maxops=40"]},
                          {"name": "hyb-big", "args": ["cases=2000", "maxops=40", "big=1"]},
-                         {"name": "blk-overload", "domain": "blk", "args": ["cases=2000", "maxops=80", "overload=1"]}],
+                         {"name": "blk-overload", "domain": "blk", "args": ["cases=2000", "maxops=80", "overload=1"]},
+                         {"name": "blk-reinsertion", "domain": "blk", "args": ["cases=1000", "maxops=160", "overload=1", "reins=1"]},
+                         {"name": "blk-blobreuse", "domain": "blk", "args": ["cases=40", "blobreuse=1"]}],
         },
         "nontrivial": r"ret=v:\d+:\d+:(disk|memory)",
         "rule": HYB_RULE + "non-trivial = at least one lookup that hit; distinct = distinct (cfg, op sequence)",
@@ -604,9 +610,11 @@ PROPS.update({
         "monitor_props": ["C09"],
         "campaigns": {
             "quick": [{"name": "blk-overload", "args": ["cases=250", "maxops=60", "overload=1", "watchdog=30"]},
-                      {"name": "blk-overload-nodel", "args": ["cases=100", "maxops=60", "overload=1", "nodel=1", "watchdog=30"]}],
+                      {"name": "blk-overload-nodel", "args": ["cases=100", "maxops=60", "overload=1", "nodel=1", "watchdog=30"]},
+                      {"name": "blk-reinsertion", "args": ["cases=60", "maxops=120", "overload=1", "reins=1", "watchdog=30"]}],
             "thorough": [{"name": "blk-overload", "args": ["cases=6000", "maxops=100", "overload=1", "watchdog=60"]},
-                         {"name": "blk-overload-nodel", "args": ["cases=3000", "maxops=100", "overload=1", "nodel=1", "watchdog=60"]}],
+                         {"name": "blk-overload-nodel", "args": ["cases=3000", "maxops=100", "overload=1", "nodel=1", "watchdog=60"]},
+                         {"name": "blk-reinsertion", "args": ["cases=2000", "maxops=160", "overload=1", "reins=1", "watchdog=60"]}],
         },
         "nontrivial": r"bev=\S*pick:",
         "rule": "the real HybridCache / block engine on a 4-8 block device (16 KiB blocks: about 3 entries per block) under "
